@@ -4387,6 +4387,16 @@ class MacroInstance: # dummy object used to track nested macros for diagnostics
 # PARSE CTX
 # =========
 
+# names that cannot be members of a structure in C or in C++ (the header is meant for both)
+_C_AND_CPP_KEYWORDS = frozenset("""
+    auto break case char const continue default do double else enum extern float for goto if inline int long register restrict
+    return short signed sizeof static struct switch typedef union unsigned void volatile while _Bool _Complex _Imaginary
+    alignas alignof and and_eq asm bitand bitor bool catch char16_t char32_t class compl const_cast constexpr decltype delete
+    dynamic_cast explicit export false friend mutable namespace new noexcept not not_eq nullptr operator or or_eq private
+    protected public reinterpret_cast static_assert static_cast template this thread_local throw true try typeid typename using
+    virtual wchar_t xor xor_eq
+""".split())
+
 class ParseCtx:
     def __init__(self, parse_tree: lark.Tree):
         self._parse_tree = parse_tree
@@ -4410,10 +4420,14 @@ class ParseCtx:
     
     def parse(self):
         # Parse state_object_spec
+        out_trees = {}
         for out in self._parse_tree.find_data("out_decl"):
             out_obj = self._parse_out_decl(out)
             if out_obj.name in self.state_object_spec:
                 raise DuplicateDefinitionError("output variable", out, out_obj.name)
+            if out_obj.name in _C_AND_CPP_KEYWORDS:
+                raise IllegalParseTree("An output cannot be named like a C or C++ keyword (it becomes a member of the state structure)", out)
+            out_trees[out_obj.name] = out
             if out_obj.holds_a(OutputStorageType.ENUM):
                 if any(x.upper() == out_obj.name.upper() for x in self.state_object_spec):
                     raise DuplicateDefinitionError("enum header name", out, out_obj.name.upper())
@@ -4447,6 +4461,19 @@ class ParseCtx:
                 if val in target:
                     raise DuplicateDefinitionError("code", i, val)
                 target.append(val)
+
+        # Every enumerator is declared in the header as <PROGRAM>_<...>: the values of an enumeration as <OUTPUT>_<VALUE>
+        # (upper case), the result codes as OK / FAIL / DONE / FINISH_<code> / YIELD_<code>.  No two may spell the same name.
+        header_names = {"OK", "FAIL", "DONE"}
+        header_names.update("FINISH_" + x for x in self.finish_codes)
+        header_names.update("YIELD_" + x for x in self.yield_codes)
+        for out_obj in self.state_object_spec.values():
+            if out_obj.holds_a(OutputStorageType.ENUM):
+                for val in out_obj.enum_values:
+                    header_name = f"{out_obj.name.upper()}_{val.upper()}"
+                    if header_name in header_names:
+                        raise DuplicateDefinitionError("enum header name", out_trees[out_obj.name], header_name)
+                    header_names.add(header_name)
 
         # Parse main
         parser_decl = next(self._parse_tree.find_data("parser_decl"))
